@@ -23,9 +23,9 @@ def spaces(tier):
     q = tier == "quick"
 
     def gen_sub():
-        tot = 6 if q else 8
+        tot = 6 if q else 10
         for L in range(1, 5):
-            for c in itertools.product(range(4), repeat=L):
+            for c in itertools.product(range(4 if q else 5), repeat=L):
                 if sum(c) <= tot:
                     yield ("subsample", c)
 
@@ -51,7 +51,7 @@ def spaces(tier):
                 yield ("mle", c)
 
     return [
-        Space("subsample-all-count-vectors", gen_sub, "count vectors of length 1..4, entries 0..3, total <= 6 (quick) / 8 (thorough) x n in 0..total+1 x every RNG answer", shards=64),
+        Space("subsample-all-count-vectors", gen_sub, "count vectors of length 1..4, entries 0..3 (thorough 0..4), total <= 6 (quick) / 10 (thorough) x n in 0..total+1 x every RNG answer", shards=64),
         Space("subsample-many-categories", gen_many, "count vectors with 255..300 (thorough: 65537) categories, entries cycling through 0..top: n = total (one possible sub-sample, both orders) and n = 1 (every single item), conservation laws on every RNG answer", per_case=True),
         Space("downsample-all-multisets", gen_down, "multisets of 0..4(5) strings over {A,B,AB} as list/ndarray/Series/table/table with duplicated index labels x maxseqs in {None,0..N+1} x every RNG answer"),
         Space("powerlaw_sample-uniform-grid", gen_pl, "size 0..3 x xmin 1..4 x alpha {1.5,2,3.5} x uniform grid^size"),
